@@ -85,6 +85,8 @@ class GraphParamV:
 
 
 class CtorWorld(GraphWorld):
+    wants_yields = True
+
     def __init__(self, cfg, ot, choices, methods, all_methods):
         super().__init__(cfg, ot, choices, methods)
         self.all_methods = all_methods      # cls -> methods
